@@ -9,16 +9,20 @@ from harness import coq
 LEVEL = "proof"
 COQ_TARGETS = ["theories/Properties/C09.vo"]
 PROPERTY_FILES = ["theories/Properties/C09.v"]
-RULE = ("python templater: exhaustive format strings over {'{','}','a','.',':','!',' '} up to length 5 (quick) / plus '[',']' up to 5 "
-        "(thorough), a fixed grid of dotted-name shapes, seeded random format trees (escaped braces, conversions, specs with fill/"
-        "whitespace/nesting, dotted and indexed names, adjacent fields) and a malformed stream (random brace soup, positional/empty "
-        "fields); every case is run through the real PythonTemplater.process, CPython's own str.format / re.sub / formatter_parser, "
-        "the Coq model and an independent string.Formatter arbiter with the documented dotted-name convention. placeholder templater: "
-        "for each of the 12 KNOWN_STYLES, SQL assembled from literal pieces and parameters written in that style (named/numeric/"
-        "positional, quoted, adjacent, repeated, at both ends, unicode names), with full / partial / empty value tables, run through "
-        "the real PlaceholderTemplater.process, the Coq model (fed the real finditer matches) and a by-construction oracle; plus "
-        "random strings and fake unsorted/overlapping match lists for correspondence only. non-trivial = python case with a field "
-        "whose name has a '.', or placeholder case with >= 1 parameter; distinct = distinct (source, context)")
+RULE = ("python templater: every string over {'{','}','a','.',':','!',' '} up to length 4 (quick) / 5 plus, with '[' ']', up to 4 (thorough); "
+        "a fixed grid (20 names x 5 conversions x 18 specs, 15 prefixes x 7 fields x 10 suffixes, one representative per known mechanism); "
+        "seeded random format strings biased to be valid (escaped braces, conversions, type-appropriate specs with fill/whitespace/nested "
+        "fields, dotted / indexed / missing names, adjacent fields, context with and without the `sqlfluff` mapping); a malformed stream "
+        "(brace soup, positional/empty fields). Every case goes through the real PythonTemplater.process (render_func and re.sub result "
+        "captured), CPython's str.format and formatter_parser, an independent string.Formatter arbiter with the dotted-name convention, and "
+        "(all of them in thorough, the exhaustive stream plus every fourth other case in quick) the Coq model with oracle tables recorded "
+        "from CPython. placeholder templater: for each of the 12 KNOWN_STYLES, SQL assembled from literal pieces and 0-6 parameters written "
+        "in that style (named / numeric / positional, quoted, braced, repeated, at both ends, unicode names, `x::int` casts), with full / "
+        "partial / empty value tables (str and non-str values, override_context and config section), checked against the by-construction "
+        "expectation and a slice-tiling oracle; names colliding with context keys; random sigil strings through the real regexes; the loop "
+        "driven by a fake regex on every list of <= 2 spans over a 4-char source (sorted and malformed) x 5 group shapes; all of these also "
+        "through the Coq model. non-trivial = python case with a field whose name has a '.', or placeholder case with >= 1 parameter; "
+        "distinct = distinct (source, context/values)")
 ASSUMPTIONS = [
     "format(value, spec), repr/str/ascii, attribute and item lookup of context values are oracles (tables recorded from CPython per case); "
     "KeyError keys are strings; no NUL conversion character; field-name digits are ASCII",
@@ -359,6 +363,11 @@ def gen_grid(tier):
         for conv in GRID_CONV:
             for spec in GRID_SPEC:
                 yield "{%s%s%s}" % (name, conv, spec)
+    # one fixed representative of every mechanism seen so far, so that the reported set does not depend on the seed
+    for fixed in ["{f.imag: >6}", "{a.b:>6}{f.imag}", "{a: >6}{{ ", " {sqlfluff}{b!s: >6}\x85", "\t{b:\t>4}{l}", "{a.b:^8}{d!a}:",
+                  "{a:}", "select {a:} from t", "{{ {a.b}", "{{a.b}}", "{a.b!r}", "{a.b: >6}", "{a.b:>6}{x.y}", "{a.b:{s.w}}",
+                  "{n.real: >6}", "{a.b.c:>6s}{n.real:>{w}}", "{12345678901234567890.5}"]:
+        yield fixed
     fields = ["{a.b}", "{a.b:>6}", "{a}", "{x.y!r}", "{n:>{w}}", "{t.col: <8}", "{b:{s.w}}"]
     for pre in GRID_PRE:
         for f in fields:
@@ -367,33 +376,42 @@ def gen_grid(tier):
 
 
 LITS = ["select ", " from ", "\n", " where x = ", "a.b", "t.c ", ":", " x: y ", "!", "[0]", "]", " ", ",", "'q'", "1.5", "\t", "é.", "　", "\x85", "-- c."]
-NAMES = ["a", "b", "n", "f", "w", "zz", "d", "l"]
-DOTTED = ["a.b", "x.y", "t.col", "s.w", "f.v", "a.b.c", "mi.ss", "n.real", "al.al", "a.", ".b", "a..b"]
-INDEXED = ["d[k]", "l[0]", "l[1]", "l[5]", "d[zz]", "d[x.y]", "a[0]", "n.real", "f.imag", "a.upper", "d[k].x", "l[0][1]", "a[", "a[0]x", "d[]", "a.b[0]", "a[b.c]"]
-SPECS = ["", ">6", "<7", "^8", " >6", "*<5", ".2f", "08.3f", "d", "x", "s", ">6s", "x y", "\t>4", ",", "%Y", "=+5"]
+# name -> kind of value it denotes under the documented convention in BIG_CTX (s str, i int, f float, o other)
+PLAIN_NAMES = {"a": "s", "b": "s", "al": "s", "n": "i", "w": "i", "p": "i", "f": "f", "d": "o", "l": "o", "test_value": "s"}
+DOTTED_NAMES = {"a.b": "s", "x.y": "i", "t.col": "s", "s.w": "i", "f.v": "f", "a.b.c": "s", "n.real": "s", "al.al": "s"}
+INDEXED_NAMES = {"d[k]": "s", "l[0]": "s", "l[1]": "s", "sqlfluff[a.b]": "s"}
+BAD_NAMES = ["zz", "mi.ss", "a.", ".b", "a..b", "l[5]", "d[zz]", "d[x.y]", "a[0]", "n.imag", "d[k].x", "l[0][1]", "a[", "a[0]x", "d[]",
+             "a.b[0]", "a[b.c]", "", "0", "1", "00", "a b", " a", "a ", "sqlfluff", "99999999999999999999.5"]
+SPECS = {
+    "s": ["", ">6", "<7", "^8", " >6", "*<5", "s", ">6s", "\t>4", ".2", "　^5", ">{w}", "{al}{w}", "<{s.w}", "{al.al}9"],
+    "i": ["", "d", "x", ">6", "06", ",", " >6", "+", "=+5", "<{w}", "{w}d", "0{s.w}"],
+    "f": ["", ".2f", "08.3f", ">8.1f", " >9", "e", "%", ",", "{w}.{p}f", ".{p}f", "{s.w}.1f"],
+    "o": ["", "", ""],
+}
+BAD_SPECS = ["x y", "=+5", "d", ".2f", "{zz}", "{w:{p}}", "{mi.ss}", "{", "}", "{w!x}", "{a.b: >3}"]
 
 
 def gen_field(rng, depth=0, nested=False):
     r = rng.random()
     if r < 0.45:
-        name = rng.choice(DOTTED)
+        name, kind = rng.choice(list(DOTTED_NAMES.items()))
     elif r < 0.8:
-        name = rng.choice(NAMES)
-    elif r < 0.93:
-        name = rng.choice(INDEXED)
+        name, kind = rng.choice(list(PLAIN_NAMES.items()))
+    elif r < 0.9:
+        name, kind = rng.choice(list(INDEXED_NAMES.items()))
     else:
-        name = rng.choice(["", "0", "1", "00", "a b", " a", "a ", "sqlfluff[a.b]", "sqlfluff"])
-    conv = rng.choice(["", "", "", "", "!r", "!s", "!a", "!x", "!"])
-    r = rng.random()
-    if r < 0.45:
+        name, kind = rng.choice(BAD_NAMES), "s"
+    conv = rng.choice(["", "", "", "", "", "!r", "!s", "!a"])
+    if rng.random() < 0.04:
+        conv = rng.choice(["!x", "!", "!rr"])
+    if conv:
+        kind = "s"
+    if rng.random() < 0.4:
         spec = ""
-    elif r < 0.8 or depth > 0:
-        spec = ":" + rng.choice(SPECS)
+    elif rng.random() < 0.9:
+        spec = ":" + rng.choice(SPECS[kind])
     else:
-        parts = []
-        for _ in range(rng.choice([1, 1, 2, 3])):
-            parts.append(rng.choice([">", "<", ".", "f", "0", " ", ""]) if rng.random() < 0.5 else gen_field(rng, depth + 1, True))
-        spec = ":" + "".join(parts)
+        spec = ":" + rng.choice(BAD_SPECS)
     return "{" + name + conv + spec + "}"
 
 
@@ -418,7 +436,7 @@ def gen_malformed(rng):
 
 # ---- running ---------------------------------------------------------------------------------------------------
 
-MODEL_FN = ("fun c : text * otab => let '(s, o) := c in (dot_hack s, parse_fmt s, (t_render o s, t_spec o s, t_format o s))")
+MODEL_FN = "harness_case"
 CONTEXTS = {}
 
 
@@ -443,11 +461,11 @@ def run_python_part(ctx, coq_ok):
         cases.append((s, "small", "exhaustive"))
     for s in gen_grid(ctx.tier):
         cases.append((s, "big", "grid"))
-    for _ in range(1600 if quick else 20000):
+    for _ in range(1600 if quick else 14000):
         cases.append((gen_tree(rng), "big", "random"))
-    for _ in range(200 if quick else 2000):
+    for _ in range(200 if quick else 1500):
         cases.append((gen_tree(rng), "nomagic", "random-nomagic"))
-    for _ in range(500 if quick else 6000):
+    for _ in range(500 if quick else 4000):
         cases.append((gen_malformed(rng), "big", "malformed"))
     seen = set()
     uniq = []
@@ -457,11 +475,15 @@ def run_python_part(ctx, coq_ok):
             uniq.append(c)
     cases = uniq
 
-    lits, expect = [], []
+    lits, expect, all_idx = [], [], []
     pattern_checked = False
-    for (s, cname, stream) in cases:
-        r = real.run(s, CONTEXTS[cname])
+    for ci, (s, cname, stream) in enumerate(cases):
+        # every 9th grid case takes its context from a FluffConfig section instead of override_context
+        r = real.run(s, CONTEXTS[cname], via_config=(stream == "grid" and ci % 9 == 0))
         live = r["live"]
+        if live != dict_ctx(cname):
+            ctx.broken_obligation("adapter: live context differs from the configured one", {"input": s, "context": cname, "live": repr(live)})
+            return lits, expect
         subs = r["subs"]
         # -- the regex under the model is the regex in the source
         if subs and not pattern_checked:
@@ -510,8 +532,13 @@ def run_python_part(ctx, coq_ok):
         # -- correspondence data
         orc = Oracle(live)
         orc.record(s, hacked)
-        lits.append("(%s, %s)" % (coq.ctext(s), orc.coq("kw_" + cname)))
-        expect.append((s, cname, rendered, direct, hacked, arb))
+        idx = len(all_idx)
+        all_idx.append(idx)
+        # quick tier: the Coq correspondence runs on the whole exhaustive stream and on every third case of the others
+        if not quick or stream == "exhaustive" or idx % 4 == 0:
+            want_parse = (not quick) or stream in ("exhaustive", "grid", "malformed")
+            lits.append("(%s, %s, %s)" % (coq.ctext(s), orc.coq("kw_" + cname), coq.cbool(want_parse)))
+            expect.append((s, cname, rendered, direct, hacked, arb, want_parse))
     ctx.coverage_extra["python_cases"] = len(cases)
     return lits, expect
 
@@ -522,16 +549,20 @@ def python_defs():
 
 def check_python_model(ctx, expect, model):
     for e, m in zip(expect, model):
-        s, cname, rendered, direct, hacked, arb = e
-        got = "".join(chr(c) for c in m[0])
+        s, cname, rendered, direct, hacked, arb, want_parse = e
+        m_hack, m_parse, m_r, m_s, m_f = m
+        got = s if m_hack is None else "".join(chr(c) for c in m_hack[1])
         if got != hacked:
             ctx.broken_obligation("correspondence Model.PyFormat.dot_hack vs re.sub in render_func", {"input": s, "model": got, "impl": hacked})
             break
-        a, b = canon_items(m[1]), canon_pyparse(s)
-        if a != b:
-            ctx.broken_obligation("correspondence Model.PyFormat.parse_fmt vs _string.formatter_parser", {"input": s, "model": a, "impl": b})
-            break
-        m_render, m_spec, m_format = coq_res(m[2][0]), coq_res(m[2][1]), coq_res(m[2][2])
+        if want_parse:
+            a, b = canon_items(m_parse[1]), canon_pyparse(s)
+            if a != b:
+                ctx.broken_obligation("correspondence Model.PyFormat.parse_fmt vs _string.formatter_parser", {"input": s, "model": a, "impl": b})
+                break
+        m_render = coq_res(m_r)
+        m_spec = m_render if m_s is None else coq_res(m_s[1])
+        m_format = m_render if m_f is None else coq_res(m_f[1])
         if "EFuel" in (m_render[1], m_spec[1], m_format[1]):
             ctx.broken_obligation("harness: oracle table incomplete (model asked a question the CPython run did not)", {"input": s, "context": cname})
             break
@@ -769,15 +800,14 @@ def cph_case(src, ctx_strs, matches):
     return "(%s, %s, %s)" % (coq.ctext(src), tab, ms)
 
 
-PH_FN = ("fun c : text * list (text * text) * list pmatch => let '(src, tab, ms) := c in let '(out, ts, rs) := ph_process (ctx_of tab) src ms in "
-         "(out, map (fun t => (ts_templated t, ts_src t, ts_tpl t)) ts, map (fun r => (rs_raw r, rs_templated r, rs_idx r)) rs)")
+PH_FN = "harness_ph"
 
 
-def canon_model(m):
-    out, ts, rs = m
+def canon_model(m, src):
+    out, ts, rs, raw_ok = m
     return ("".join(chr(c) for c in out),
             [("templated" if t[0] else "literal", t[1][0], t[1][1], t[2][0], t[2][1]) for t in ts],
-            [("".join(chr(c) for c in r[0]), "templated" if r[1] else "literal", r[2]) for r in rs])
+            [(src[r[2]:r[2] + r[0]] if raw_ok else None, "templated" if r[1] else "literal", r[2]) for r in rs])
 
 
 def tf_ok(src, out, tslices, rslices):
@@ -825,7 +855,7 @@ def run_placeholder_part(ctx, coq_ok):
         expect.append((src, what, matches, res))
 
     # -- B1. by-construction oracle, every style, with / without values
-    per_style = 40 if quick else 700
+    per_style = 40 if quick else 400
     for style in styles:
         if style not in NAMED:
             continue
@@ -873,7 +903,7 @@ def run_placeholder_part(ctx, coq_ok):
         record(src, live, matches, res, {"style": style, "values": user})
     # -- B3. correspondence only: random strings full of sigils through the real regexes
     alpha = ":$%?&{}()'\"\\sa1_- \n"
-    for _ in range(300 if quick else 12000):
+    for _ in range(300 if quick else 6000):
         style = rng.choice(styles)
         src = "".join(rng.choice(alpha) for _ in range(rng.randrange(0, 14)))
         user = {n: rng.choice(VALUES) for n in ["a", "s", "1", "a1", "sa", "11", "2"] if rng.random() < 0.5}
@@ -903,7 +933,7 @@ def run_placeholder_part(ctx, coq_ok):
             if quick and (s1[0] + 2 * s2[1] + len(k1[0] or "")) % 7:
                 continue
             fake_cases.append([s1 + k1, s2 + k2])
-    for _ in range(60 if quick else 3000):
+    for _ in range(60 if quick else 1500):
         n = rng.choice([3, 4, 12])
         fake_cases.append([(lambda a, b: (min(a, b), max(a, b)))(rng.randrange(0, 8), rng.randrange(0, 8)) + rng.choice(kinds) for _ in range(n)])
     for fm in fake_cases:
@@ -923,12 +953,34 @@ def run_placeholder_part(ctx, coq_ok):
 
 def check_placeholder_model(ctx, expect, model):
     for (src, what, matches, res), m in zip(expect, model):
-        mm = canon_model(m)
+        mm = canon_model(m, src)
         if res[0] != "ok" or tuple(res[1]) != mm:
             ctx.broken_obligation("correspondence Model.Placeholder.ph_process vs PlaceholderTemplater.process",
                                   {"input": {"source": src, "what": what, "matches": matches}, "model": mm, "impl": res})
             break
     ctx.coverage_extra["placeholder_model_vs_impl_cases"] = len(expect)
+
+
+def replay(ctx, data):
+    """./check C09 --replay file : run the recorded input(s) again on the current tree"""
+    rep = data.get("replay", {})
+    inputs = [rep.get("input")] + list(rep.get("more_inputs", []))
+    still = 0
+    for inp in [i for i in inputs if i]:
+        if "style" in inp:
+            res, _live, _m = RealPlaceholder().run(inp["source"], inp.get("values", {}), inp["style"], via_config=inp.get("via_config", False))
+            print("placeholder %r style=%s values=%r -> %r" % (inp["source"], inp["style"], inp.get("values"), res[1][0] if res[0] == "ok" else res))
+            if "expected" in rep and inp is rep.get("input") and (res[0] != "ok" or res[1][0] != rep["expected"]):
+                still += 1
+        else:
+            r = RealPython().run(inp["source"], CONTEXTS[inp["context"]])
+            arb = arbiter(inp["source"], r["live"])
+            print("python %r context=%s: str.format with the dotted-name convention -> %r ; PythonTemplater.process -> %r ; render_func -> %r"
+                  % (inp["source"], inp["context"], arb, r["process"], r["rendered"]))
+            if (arb[0] == "ok") != (r["process"][0] == "ok") or (arb[0] == "ok" and arb[1] != r["process"][1]):
+                still += 1
+    print("%d of %d recorded inputs still violate the property" % (still, len([i for i in inputs if i])))
+    return 1 if still else 0
 
 
 def submit_shards(pool, imports, func, lits, nshards, defs=""):
@@ -960,7 +1012,7 @@ def run(ctx, coq_ok):
         ph_lits, ph_expect = run_placeholder_part(ctx, coq_ok)
         ph_futs = submit_shards(pool, ["Model.Placeholder"], PH_FN, ph_lits, 1 if quick else 8) if coq_ok else []
         py_lits, py_expect = run_python_part(ctx, coq_ok)
-        py_futs = submit_shards(pool, ["Model.PyFormat"], MODEL_FN, py_lits, 7 if quick else 48, defs=python_defs()) if coq_ok else []
+        py_futs = submit_shards(pool, ["Model.PyFormat"], MODEL_FN, py_lits, 3 if quick else 40, defs=python_defs()) if coq_ok else []
         if coq_ok:
             check_placeholder_model(ctx, ph_expect, gather(ph_futs))
             check_python_model(ctx, py_expect, gather(py_futs))
